@@ -46,8 +46,8 @@ def _variant(i):
     return sev, flags
 
 
-def _run(files, **opts):
-    w = World(files=files)
+def _run(files, subdirs=None, **opts):
+    w = World(files=files, subdirs=subdirs)
     ns = Namespace(**dict(ARG_DEFAULTS, path="/pels", skip_plugins=True, **opts))
     status = run_main(peltool, w, ns)
     return w, status
@@ -175,7 +175,8 @@ def h_order() -> bool:
     names = ["m_50000002.pel", "z_50000003.txt", "b_50000001.pel", last, "b_50000000.pel", "pel", "txt"]
     eid_of = lambda nm: int(nm.split("_")[1][:8], 16) if "_" in nm else {"pel": 0x50000007, "txt": 0x50000008}[nm]
     files = [(nm, pb.PEL(pb.SRC(), ph=dict(eid=eid_of(nm)))) for nm in names]
-    opt = dict(reverse=rev, extension=ext, every_pel=True)
+    # (sub-directories - also ones named like a log file - are not logs)
+    opt = dict(reverse=rev, extension=ext, every_pel=True, subdirs={"old_50000009.pel": [("q_5000000A.pel", files[0][1])], "notes.txt": []})
     try:
         if mode == "n":
             w, st = _run(files, show_pel_count=True, **opt)
